@@ -95,6 +95,13 @@ pub enum N {
         id: u32,
         sig: u8,
     },
+    /// an asynchronous and-or list:
+    /// `: >out; rc S && echo W >>out & p=$!; wait $p; echo "?=$?"; cat out`
+    BgAndOr {
+        id: u32,
+        first: u8,
+        word: String,
+    },
     /// an orphan: a subshell starts an asynchronous job and exits without
     /// waiting; the job finishes later (simulated time) with nobody to reap it:
     /// `( { nap K; echo W >orph_ID; } & ); nap K+5; cat orph_ID`
@@ -252,6 +259,15 @@ impl Gen<'_> {
                         word,
                     });
                     out.push(N::Qm);
+                }
+                81 if allow_bg && depth < 2 && self.rng.bool() => {
+                    self.next_id += 1;
+                    let word = self.word();
+                    out.push(N::BgAndOr {
+                        id: self.next_id,
+                        first: *self.rng.pick(&[0u8, 0, 1, 5]),
+                        word,
+                    });
                 }
                 81 if allow_bg && depth < 2 => {
                     self.next_id += 1;
@@ -555,6 +571,9 @@ fn render(n: &N, out: &mut String, _sep: &str) {
         )),
         N::Call(f) => out.push_str(&format!("f{f}")),
         N::Kp => out.push_str("kill -s USR1 $$"),
+        N::BgAndOr { id, first, word } => out.push_str(&format!(
+            ": >out_{id}; rc {first} && echo {word} >>out_{id} & p_{id}=$!; wait $p_{id}; echo \"?=$?\"; cat out_{id}"
+        )),
         N::Orphan { id, nap, word } => out.push_str(&format!(
             "( {{ nap {nap}; echo {word} >orph_{id}; }} & ); nap {}; cat orph_{id}",
             nap + 5
@@ -767,6 +786,13 @@ fn eval(n: &N, cx: &mut Ctx) {
         N::Nap(_) | N::Kp => cx.status = 0,
         N::Orphan { word, .. } => {
             cx.out.push(word.clone());
+            cx.status = 0;
+        }
+        N::BgAndOr { first, word, .. } => {
+            cx.out.push(format!("?={first}"));
+            if *first == 0 {
+                cx.out.push(word.clone());
+            }
             cx.status = 0;
         }
         N::SelfKill { kind, sig, word } => {
